@@ -39,13 +39,13 @@ CROSSC = ("MCA", "CCA", "CPCCA", "ComplexMCA")
 ROT = ("EOFRotator", "MCARotator", "CPCCARotator")
 MULTI = ("multi.CCA",)
 CLASSES = SINGLE + CROSSC + ROT + MULTI
-OPS = ("fit", "fit", "fit", "transform", "inverse", "query", "compute", "serialize", "rotate", "bootstrap", "badfit", "transform_other", "intfit")
+OPS = ("fit", "fit", "fit", "transform", "inverse", "query", "compute", "serialize", "rotate", "bootstrap", "badfit", "transform_other", "intfit", "inttrans")
 
 
 def required(tier):
     return {
-        "mon": ["answers_compared", "inputs_immutability_checked", "refits", "failpoint:injected", "failpoint:refit_after_fault"],
-        "cover": [f"cls:{c}" for c in CLASSES] + ["cfg:raw_weights", "op:rotate", "op:bootstrap", "op:badfit", "op:serialize", "op:compute", "op:transform_other", "op:intfit"],
+        "mon": ["answers_compared", "inputs_immutability_checked", "refits", "failpoint:injected", "failpoint:refit_after_fault", "failpoint:injected_in_transform"],
+        "cover": [f"cls:{c}" for c in CLASSES] + ["cfg:raw_weights", "op:rotate", "op:bootstrap", "op:badfit", "op:serialize", "op:compute", "op:transform_other", "op:intfit", "op:inttrans"],
     }
 
 
@@ -75,6 +75,8 @@ def cases(tier, seed):
             else:
                 ops = [["fit", 2], ["intfit", 3, frac], ["fit", 0], ["query", 0]]
             out.append(dict(cls=cls, ops=ops, dseed=20 + q % 5, cfg="raw_weights" if q % 4 == 3 else "default"))
+            if q % 2 == 0:
+                out.append(dict(cls=cls, ops=[["fit", 0], ["inttrans", 1, frac], ["query", 0], ["inttrans", 0, 1 - frac], ["inverse", 0]], dseed=30 + q % 5))
     nrand = 120 if tier == "quick" else 3000
     maxlen = 8 if tier == "quick" else 20
     for j in range(nrand):
@@ -84,7 +86,7 @@ def cases(tier, seed):
         ops = [["fit", int(rng.integers(0, 4))]]
         for _ in range(L - 1):
             ops.append([str(rng.choice(OPS)), int(rng.integers(0, 4))])
-            if ops[-1][0] == "intfit":
+            if ops[-1][0] in ("intfit", "inttrans"):
                 ops[-1].append(float(np.round(rng.random(), 4)))
         out.append(dict(cls=cls, ops=ops, dseed=int(rng.integers(0, 1000)), cfg=str(rng.choice(["default", "default", "raw_weights"]))))
     return out
@@ -393,6 +395,33 @@ def run_case(case, obs):
                     continue
                 elif current is None:
                     continue
+                elif op == "inttrans":
+                    # a projection of other data interrupted at a statement inside the package: the fitted answers
+                    # (compared right below) must not notice
+                    fa = _facade(cls, base, model, rot)
+                    if fa.name not in zoo.HAS_TRANSFORM:
+                        continue
+                    tgt = data
+                    snap = copy.deepcopy(tgt)
+                    key = ("t", current, j)
+                    try:
+                        if key not in npoints:
+                            npoints[key] = failpoint.run(lambda: fa.transform(*tgt), -1, trace=True)["sites"]
+                        sites = npoints[key]
+                    except Exception:  # noqa: BLE001  (this data cannot be projected by this model at all)
+                        obs.count("op_raised:inttrans_probe")
+                        sites = []
+                    if sites:
+                        files = sorted(set(sites))
+                        fsel = files[int(float(o[2]) * len(files)) % len(files)]
+                        idxs = [q for q, f in enumerate(sites) if f == fsel]
+                        k = 1 + idxs[int(((float(o[2]) * 7919.0) % 1.0) * len(idxs))]
+                        res = failpoint.run(lambda: fa.transform(*tgt), k)
+                        if res["raised"]:
+                            obs.count("failpoint:injected_in_transform")
+                            obs.info.setdefault("failpoints", []).append(res["where"])
+                            tags = dict(tags, after_injected_fault=True)
+                    data = tgt
                 elif op in ("transform", "transform_other"):
                     tgt = pool[current] if op == "transform" else data
                     snap = copy.deepcopy(tgt)
@@ -507,3 +536,30 @@ def _model_still_usable(obs, model, tags):
                 f"model.{what}() raises {type(e).__name__}: {e} after a rotator/bootstrapper was fitted on it",
                 tags=dict(tags, symptom="model_broken_by_derived_fit", exc=type(e).__name__, call=what),
             )
+
+
+def evidence_extra(results, extras):
+    """what the failpoint monitor observed: injections, distinct statement sites, files, and per class how many
+    histories contained a refit / an interrupted fit"""
+    sites, per_cls = {}, {}
+    inj = refit_after = 0
+    for r in results:
+        c = r["case"]
+        d = per_cls.setdefault(c["cls"], {"histories": 0, "with_interrupted_fit": 0, "ops": 0})
+        d["histories"] += 1
+        d["ops"] += len(c["ops"])
+        if any(o[0] == "intfit" for o in c["ops"]):
+            d["with_interrupted_fit"] += 1
+        for w in (r.get("info") or {}).get("failpoints", []):
+            sites[w] = sites.get(w, 0) + 1
+        m = r.get("mon") or {}
+        inj += m.get("failpoint:injected", 0)
+        refit_after += m.get("failpoint:refit_after_fault", 0)
+    files = {}
+    for w, k in sites.items():
+        f = str(w).split(":")[0]
+        files[f] = files.get(f, 0) + k
+    return {
+        "failpoints": {"injected": inj, "successful_refits_after_a_fault": refit_after, "distinct_statement_sites": len(sites), "injections_per_file": dict(sorted(files.items()))},
+        "histories_per_class": per_cls,
+    }
